@@ -17,16 +17,17 @@ CLAIMS = {
  "C18": ("mapgraph", "UncheckedAgrees (insert_i == insert_ii slot for slot inside the contract) and DisjointAgrees invariants; all contract-satisfying instances replayed against the real unsafe methods."),
  "C19": ("mapgraph", "The model supplies the entry sequence to be rendered (containers) and the not-yet-yielded entries (every cursor kind at every prefix); replay compares the real Debug/Display output with std's rendering of the observed sequence and the listed entries with the model."),
 }
+ "C06": ("mapgraph+pairgraph", "Frame condition of the model (no operation touches a heap) bound to the code by a counting global allocator armed around every container call of every replayed transition (single-container and pair graphs), address checks on every returned reference, and a build probe reading the crates the no_std library links against."),
+ "C08": ("pairgraph", "AlgebraIsMath invariant on the transcribed lazy adaptors (exact mathematical result, no repeats, left-operand objects, size_hint brackets at every prefix, predicates) over every pair of slot layouts; replay of every (pair, op, prefix) with next / clone / Debug / fold cross-checked and operands re-observed unchanged."),
+ "C14": ("pairgraph", "EqIsExtensional invariant (eq.rs transcription == extensional equality, reflexive, symmetric) over all pairs of layouts and several capacity pairs; replay of a == b, b == a, a == a, b == b."),
+ "C15": ("mapgraph", "Clone modelled with clone tags (one clone per key and value object), followed by an operation on either copy and the drop of either copy; TLC checks independence and conservation, the replay checks clone counts per source object, equality, the untouched copy and the ledger."),
+ "C20": ("mapgraph", "Ser/De modelled as announce len + emit in slot order / fold of inserts; replay round-trips through serde_json and bincode (legacy, fixed length prefix = announced length) into targets of capacity len, N and N+1."),
+}
 NA = {
 }
 PENDING = {
  "C04": "engine under construction (callback-granular micro model + panic injection sweep)",
- "C06": "engine under construction (allocator instrument wired into the replay; build probe)",
- "C08": "engine under construction (pair graph: set algebra)",
- "C14": "engine under construction (pair graph: equality)",
- "C15": "engine under construction (pair graph: clone)",
  "C17": "engine under construction (adversarial-Eq micro model + decision-tree sweep)",
- "C20": "engine under construction (pair graph: serde round trip)",
 }
 NOTE = "exhaustive within the TLC constants recorded in the evidence (capacities 0..2 quick, plus 3 thorough; 3-4 key classes; 2 distinguishable key objects per class; 2 value contents); element types are the harness' instrumented plain-old-data Key/Val; TLC, rustc and std trusted; the harness holds no model logic, all expected values come from TLC's emitted transitions"
 
@@ -56,6 +57,8 @@ def main():
             "add_only": True,
         },
         "engines": [
+            {"name": "pairgraph", "path": "spec/PairSpec.tla + harness/src/pair.rs", "serves_properties": ["C06", "C08", "C14"],
+             "kind_free_text": "TLC state graph of two containers with the read-only binary operations, replayed into the real crate"},
             {"name": "mapgraph", "path": "spec/MapSpec.tla + harness/src/replay.rs", "serves_properties": sorted(CLAIMS),
              "kind_free_text": "TLC state graph of one container (Map.tla/MapOps.tla refining Dict.tla) emitted as labelled transitions and replayed into the real crate"},
         ],
